@@ -10,8 +10,9 @@ RULE = ("ordered pairs of automata: a random epsilon-NFA/NFA/DFA (0-4 states, 1-
         "states, renaming, determinised), (b) a one-edit mutant, (c) an independent random automaton (possibly "
         "over another alphabet); is_equivalent_to and == in both directions are decided against the verified "
         "language-equivalence oracle; minimize() of both is checked for language, determinism, reducedness "
-        "(verified Nerode oracle) and isomorphism when the languages are equal; the Hopcroft partition is "
-        "compared with the Nerode partition. Non-trivial: first automaton has >=2 states, >=2 transitions, a "
+        "(verified Nerode oracle) and isomorphism when the languages are equal; the partition computed by "
+        "_get_partition is compared, class order and member order included, with the step-faithful Hopcroft model "
+        "(proved to yield the Nerode partition) and with the Nerode oracle. Non-trivial: first automaton has >=2 states, >=2 transitions, a "
         "start and a final state.")
 THEOREMS = ["Pfl.ENFA.sameRight_iff",
             "Pfl.ENFA.nerodeGroups_spec",
@@ -28,7 +29,12 @@ THEOREMS = ["Pfl.ENFA.sameRight_iff",
             "Pfl.ENFA.langDiff_none_iff",
             "Pfl.ENFA.langDiff_some",
             "Pfl.ENFA.toDet_lang",
-            "Pfl.ENFA.toDet_shape"]
+            "Pfl.ENFA.toDet_shape",
+            "Pfl.ENFA.hopcroft_isNerodePartition",
+            "Pfl.ENFA.hopcroft_groups_nodup",
+            "Pfl.ENFA.hopcroft_isSome",
+            "Pfl.ENFA.minimize_hopcroft_lang",
+            "Pfl.ENFA.minimize_hopcroft_reduced"]
 
 
 def variant(rng, spec):
